@@ -208,15 +208,17 @@ def set_union_merge_many(list arrays):
     # than 2 ** 32 with uint32 anyway, it's just that gap between 31 and 32.
     cdef list value_arrays = [arr for arr in arrays if len(arr)]
     cdef long num_arrays = len(value_arrays)
+    if num_arrays == 0:
+        return numpy.empty(0, dtype=numpy.uint32)
+
     varr = numpy.concatenate(value_arrays)
     cdef uint32[:] values = varr
     larr = numpy.array([arr.shape[0] for arr in value_arrays], dtype=int)
-    cdef long[:] lengths = larr
-    parr = numpy.concatenate([[0], lengths[:len(larr) - 1]])
-    cdef long[:] pointers = parr
-    limarr = parr + larr
+    # Each array occupies values[pointers[i]:limits[i]] of the concatenation.
+    limarr = numpy.cumsum(larr)
     cdef long[:] limits = limarr
-    cdef uint32 limit_value = max([arr[len(arr) - 1] for arr in value_arrays]) + 1
+    parr = limarr - larr
+    cdef long[:] pointers = parr
 
     # Form a result array which we will fill with the set intersection results.
     # The output cannot be longer than the concatenation of the input arrays,
@@ -231,25 +233,29 @@ def set_union_merge_many(list arrays):
     with nogil:
         while 1:
             # Find the minimum value and its array number.
-            min_value = limit_value
             min_arrnum = -1
             for arrnum in range(num_arrays):
                 ptr = pointers[arrnum]
                 if ptr >= limits[arrnum]:
                     continue
                 value = values[ptr]
-                if value < min_value:
+                if min_arrnum == -1 or value < min_value:
                     min_value = value
                     min_arrnum = arrnum
 
-            if min_value == limit_value:
+            if min_arrnum == -1:
                 # All arrays have been exhausted.
                 break
 
             result_view[result_len] = min_value
             result_len += 1
 
-            pointers[min_arrnum] += 1
+            # Advance every array whose next value is the minimum, so a value
+            # present in several arrays is emitted once.
+            for arrnum in range(num_arrays):
+                ptr = pointers[arrnum]
+                if ptr < limits[arrnum] and values[ptr] == min_value:
+                    pointers[arrnum] = ptr + 1
 
     return result[:result_len]
 
